@@ -470,6 +470,12 @@ func (r *Reader) seekIndexed(want record) (*tableIter, error) {
 		return nil, err
 	}
 
+	// An index block is written after all the blocks of the level
+	// below, so on the way down every child must lie before the index
+	// block we entered on the level above. Anything else could send
+	// us in circles. (idxIter.blockOff cannot serve as the bound: Next
+	// may step into the following index block of the same level.)
+	limit := idxIter.blockOff
 	for {
 		var rec indexRecord
 		ok, err := idxIter.Next(&rec)
@@ -480,11 +486,10 @@ func (r *Reader) seekIndexed(want record) (*tableIter, error) {
 			return nil, nil
 		}
 
-		if rec.Offset >= idxIter.blockOff {
-			// an index block is written after the blocks it
-			// indexes; anything else could send us in circles.
+		if rec.Offset >= limit {
 			return nil, fmtError
 		}
+		limit = rec.Offset
 		tabIter, err := r.tabIterAt(rec.Offset, blockTypeAny)
 		if err != nil {
 			return nil, err
